@@ -42,6 +42,25 @@ impl Property for C01 {
             ..Plan::default()
         }
     }
+    fn fixed_cases(&self, tier: Tier) -> Vec<Value> {
+        // exhaustive core: every well-typed closed term of the reduced grammar up to n nodes,
+        // with optimisation on and off
+        let mut out = vec![];
+        for (ty, body) in crate::gen::small::all_terms(tier.pick(6, 7)) {
+            let prog = Program { decls: vec![], body, ty, uses_host: false, features: vec!["exhaustive_core".into()] };
+            let src = print_program(&prog, Style::default(), "");
+            for optimize in [true, false] {
+                out.push(json!({"prog": prog, "src": src, "optimize": optimize}));
+            }
+        }
+        out
+    }
+    fn exhaustive_note(&self, tier: Tier) -> Option<String> {
+        Some(format!(
+            "all well-typed closed terms with <= {} nodes of result type Int / Bool / (Int, Int) / {{ x : Int, y : Bool }} / Option Int over the reduced grammar (literals 0 1 True False None, variables, let at 7 types, lambda, application incl. partial and over-application through curried types, tuple / record construction and projection, Some, match on Option, if, #Int+, #Int<, error), each with optimisation on and off",
+            tier.pick(6, 7)
+        ))
+    }
     fn gen(&self, t: &mut Tape, tier: Tier) -> Value {
         let style = style_from(t);
         let cfg = GenCfg {
